@@ -56,6 +56,9 @@ type Task struct {
 	// Cancel, when set, is the client abandoning the request; Cancelled records that it did.
 	Cancel    func()
 	Cancelled bool
+	// Background: the housekeeping threads of an instance, adopted when it was opened. They stay parked across
+	// runs (a run ends when only they are left) and are unwound when their instance goes or the scheduler closes.
+	Background bool
 }
 
 // Park is a thread parked at a yield point.
@@ -107,6 +110,10 @@ type Sched struct {
 	Step    int
 	direct  atomic.Bool
 	unwind  atomic.Bool
+	// booting: an instance is being opened; hook calls from any goroutine but the opener's park even in direct
+	// mode (they come from background goroutines the instance started), attributed to the housekeeping task.
+	booting  atomic.Bool
+	bootGoid uint64
 	KeyName func([]byte) string
 	stores  map[any]*Instance
 	sig     []byte // running hash of the schedule projection
@@ -146,7 +153,10 @@ func NewSched(rc *RunCtx, cfg SchedCfg) *Sched {
 }
 
 // Close detaches the scheduler.
-func (s *Sched) Close() { curSched.CompareAndSwap(s, nil) }
+func (s *Sched) Close() {
+	s.AbortBackground(nil)
+	curSched.CompareAndSwap(s, nil)
+}
 
 // RegisterStore associates a store pointer with an instance.
 func (s *Sched) RegisterStore(store any, inst *Instance) {
@@ -204,7 +214,7 @@ func (s *Sched) Spawn(name string, inst *Instance, fn func(t *Task)) *Task {
 // Yield parks the calling goroutine at a yield point and returns how to continue.
 // In direct mode it returns immediately.
 func (s *Sched) Yield(kind, label, key string, mutex any, inst *Instance, meta any) Resume {
-	if s.direct.Load() {
+	if s.passThrough() {
 		return Resume{}
 	}
 	p := &Park{Kind: kind, Label: label, Key: key, Mutex: mutex, Inst: inst, Meta: meta, ch: make(chan Resume, 1)}
@@ -220,9 +230,78 @@ func (s *Sched) Yield(kind, label, key string, mutex any, inst *Instance, meta a
 	return <-p.ch
 }
 
+// passThrough reports whether a hook call from the calling goroutine continues without parking.
+func (s *Sched) passThrough() bool {
+	if !s.direct.Load() {
+		return false
+	}
+	return !s.booting.Load() || goid() == s.bootGoid
+}
+
+// goid returns the identifier of the calling goroutine (only consulted while an instance is being opened).
+func goid() uint64 {
+	var buf [64]byte
+	b := buf[:runtime.Stack(buf[:], false)]
+	var id uint64
+	for _, c := range b[len("goroutine "):] {
+		if c < '0' || c > '9' {
+			break
+		}
+		id = id*10 + uint64(c-'0')
+	}
+	return id
+}
+
+// BeginBoot is called before an instance is opened and EndBoot after: whatever goroutines the instance starts for
+// itself run, with the hooks live, until each is parked at a yield point or blocked; from then on they are scheduled
+// like request threads, as the housekeeping task of that instance.
+func (s *Sched) BeginBoot(name string) *Task {
+	t := &Task{ID: len(s.Tasks), Name: "housekeeping@" + name, InvokeStep: s.Step, ReturnStep: -1, Started: true, Done: true, Background: true}
+	s.Tasks = append(s.Tasks, t)
+	s.mu.Lock()
+	s.running = t
+	s.mu.Unlock()
+	s.bootGoid = goid()
+	s.booting.Store(true)
+	return t
+}
+
+// EndBoot finishes what BeginBoot started.
+func (s *Sched) EndBoot(t *Task, inst *Instance) {
+	synctest.Wait()
+	s.booting.Store(false)
+	t.Inst = inst
+	s.mu.Lock()
+	s.running = nil
+	n := 0
+	for _, p := range s.parked {
+		if p.Task == t {
+			p.Inst = inst
+			n++
+		}
+	}
+	s.mu.Unlock()
+	if n > 0 {
+		s.rc.Stats.Inc("probe_background_threads_parked_at_start_up", int64(n))
+		s.rc.Logf("t%d: %d housekeeping thread(s) of %s parked at start-up", t.ID, n, t.Name)
+	}
+}
+
 func (s *Sched) onPoint(store any, op string, key []byte) error {
-	if s.direct.Load() {
+	if s.passThrough() {
 		return nil
+	}
+	if s.direct.Load() {
+		// A background goroutine of an instance that is being opened: the store may not be registered yet.
+		k := ""
+		if len(key) > 0 {
+			k = s.KeyName(key)
+		}
+		r := s.Yield(KPoint, op, k, nil, nil, nil)
+		if inst := s.instOf(store); inst != nil && r.Err == nil {
+			inst.inStoreOp.Add(1)
+		}
+		return r.Err
 	}
 	inst := s.instOf(store)
 	if inst == nil {
@@ -265,7 +344,7 @@ func (s *Sched) onPointDone(store any, op string, _ []byte) {
 }
 
 func (s *Sched) onBeforeLock(m any, label string, key []byte) {
-	if s.direct.Load() {
+	if s.passThrough() {
 		return
 	}
 	k := ""
@@ -384,7 +463,7 @@ func (s *Sched) Run() string {
 			s.Outcome = "violation"
 			break
 		}
-		if len(parked) == 0 {
+		if onlyBackground(parked) {
 			s.Outcome = "done"
 			break
 		}
@@ -423,6 +502,10 @@ func (s *Sched) Run() string {
 			s.rc.Truncated = true
 			break
 		}
+		// Housekeeping threads last: the simplest schedule leaves them where they are.
+		sort.SliceStable(enabled, func(i, j int) bool {
+			return !enabled[i].Task.Background && enabled[j].Task.Background
+		})
 		// Canonical order with the running task's threads first: decision 0 = keep going.
 		if s.running != nil {
 			sort.SliceStable(enabled, func(i, j int) bool {
@@ -452,21 +535,47 @@ func (s *Sched) Run() string {
 	return s.Outcome
 }
 
-// Unwind aborts every parked thread (and every thread that parks while doing so) until none remain.
+func onlyBackground(parked []*Park) bool {
+	for _, p := range parked {
+		if !p.Task.Background {
+			return false
+		}
+	}
+	return true
+}
+
+// Unwind aborts every parked request thread (and every thread that parks while doing so) until none remain.
+// Housekeeping threads stay parked: they outlive the run.
 func (s *Sched) Unwind() {
 	s.direct.Store(false)
 	for i := 0; i < 100000; i++ {
 		synctest.Wait()
 		parked := s.snapshot()
-		if len(parked) == 0 {
+		if onlyBackground(parked) {
 			break
 		}
 		for _, p := range parked {
-			s.abort(p)
+			if !p.Task.Background {
+				s.abort(p)
+			}
 		}
 	}
 	s.direct.Store(true)
 	synctest.Wait()
+}
+
+// AbortBackground unwinds the housekeeping threads that are still parked (all of them, or those of one instance).
+func (s *Sched) AbortBackground(inst *Instance) {
+	n := 0
+	for _, p := range s.snapshot() {
+		if p.Task.Background && (inst == nil || p.Task.Inst == inst) {
+			s.abort(p)
+			n++
+		}
+	}
+	if n > 0 {
+		synctest.Wait() // they run to their next blocking point before the caller goes on (parks exist in bubbles only)
+	}
 }
 
 func (s *Sched) abort(p *Park) {
